@@ -156,6 +156,7 @@ def layout_document(html, root_box, context, max_loops=8):
     watch_elements = []
     watch_elements_before = []
     watch_elements_after = []
+    watch_string_sets = set()
     for i, page in enumerate(pages):
         # We need the updated page_counter_values
         _, _, _, page_state, _ = context.page_maker[i + 1]
@@ -191,6 +192,11 @@ def layout_document(html, root_box, context, max_loops=8):
             # Collect the string_sets in the LayoutContext
             string_sets = child.string_set
             if string_sets and string_sets != 'none':
+                # Only the first fragment of a box assigns its named strings.
+                string_set_key = (child.element, child.element_tag)
+                if string_set_key in watch_string_sets:
+                    continue
+                watch_string_sets.add(string_set_key)
                 for string_set in string_sets:
                     string_name, text = string_set
                     context.string_set[string_name][i+1].append(text)
